@@ -47,11 +47,11 @@ type Req struct {
 	HostOverride string `json:"host_override,omitempty"` // req.Host set by the caller
 	// EmptyHost: the caller leaves req.Host empty (a hand-built http.Request;
 	// net/http then sends URL.Host).
-	EmptyHost bool `json:"empty_host,omitempty"`
-	Method       string `json:"method"`
-	BodyLen      int    `json:"body_len,omitempty"`
-	RespSize     int    `json:"resp_size"`
-	NoDrain      bool   `json:"no_drain,omitempty"` // close the response body after the first byte
+	EmptyHost bool   `json:"empty_host,omitempty"`
+	Method    string `json:"method"`
+	BodyLen   int    `json:"body_len,omitempty"`
+	RespSize  int    `json:"resp_size"`
+	NoDrain   bool   `json:"no_drain,omitempty"` // close the response body after the first byte
 }
 
 func (r Req) hostPort() string {
